@@ -263,7 +263,8 @@ ADDENDA = {
            'validate() must let every string of a payload plus check characters through.',
     'C07': ' The IBAN envelope relies on util.get_cc_module loading the named submodule (from-list or dotted path), which is checked.',
     'C08': ' A conversion that is a pure projection of its source has to validate the source first.',
-    'C09': ' util.get_cc_module must import the named submodule (from-list or dotted path): otherwise the dispatch silently returns None.',
+    'C09': ' util.get_cc_module must import the named submodule (from-list or dotted path): otherwise the dispatch silently returns None. '
+           'In a wrapper `try: return A.validate(n) except X: return B.validate(n)` every gate of A.validate() that raises another class than X is a gate of B.validate() too (C09.fallback).',
     'C10': ' Guards on the emptiness of an accumulator fork the abstract execution; temporaries of one iteration are atoms with the order type '
            'they had when assigned; what get() hands to read() and read() to _parse() must be the opened file itself (DT.source); the property '
            'name class must contain [0-9a-zA-Z-_].',
@@ -284,7 +285,7 @@ ADDENDA = {
            'never used as a character set (strip family); compact() deletes only the parentheses and clean() leaves the 82 GS1 value characters alone. In a sequence-value branch of _encode_value() every return depends on every component the branch reads (C16.pair).',
     'C17': ' Paths of validate() that return without any check are limited to two documented modules. Prefixes that compact()/validate() '
            'recognise and cut off before the check (startswith / slice comparison / membership, then number[k:]) must be pairwise more than one '
-           'substitution apart when they have the same length (C17.discard).',
+           'substitution apart when they have the same length (C17.discard). The documented exemption of fr.siret (La Poste) stays delimited by exactly its prefix (C17.exempt).',
     'C18': ' Availability: the C01 obligations and the result kind / attribute totality of every format() the page calls are re-decided; '
            'util.get_number_modules() must yield every module that has validate(); the scan of the formats is guarded only by the presence of '
            'the parameter; the two responses are read path by path. The functions get_conversions() selects return no bytes / set / complex value, which json.dumps() of the AJAX answer would refuse (C18.json-kind).',
